@@ -293,3 +293,24 @@ def gen_policy(pid, f):
                     'required': 'no live key is ever evicted: the stored data (about 1 KB) is far below the 8 KB limit',
                     'what': 'random eviction, workload of new-key stores and %s deletes: after %d steps the store holds %d keys, %d are live' % (variant, (idx + 1) * 50, lens[idx] if idx < len(lens) else -1, checks[idx])}
     return None
+
+# ------------------------------------------------------------------------------------------------
+# C03: two-thread schedules on the real store (thread 1 parked at its n-th Timer::timestamp() call while thread 2 runs
+# to completion), compared with both sequential orders.  The grid leaves out the schedules of the open known findings
+# (CAS store on an ABSENT key; the read-modify-write commands of C04), so what it finds is new.
+@generator(r'conc/conc\.(set|cache_get|check_if_expired|get_by_key|remove)|kani/store_delete')
+def gen_conc_store(pid, f):
+    inits = {'present': ['init set k v0 0 0'], 'present-expired': ['init set k v0 0 5', 'tick 10'], 'absent': []}
+    t1s = ['get k', 'set k one 0 0', 'set k one 1 0', 'delete k 0', 'delete k 1']
+    t2s = ['get k', 'set k two 0 0', 'set k two 1 0', 'delete k 0', 'delete k 1']
+    for iname, init in inits.items():
+        for a in t1s:
+            for b in t2s:
+                for park in (1, 2):
+                    if iname == 'absent' and (' 1 0' in a and a.startswith('set')):
+                        continue   # known finding: CAS store on an absent key
+                    lines = init + ['t1 ' + a, 'park %d' % park, 't2 ' + b, 'final get k']
+                    w = {'kind': 'conc', 'lines': lines, 'what': 'initial state %s; thread 1 `%s` parked at its timestamp() call #%d while thread 2 runs `%s`' % (iname, a, park, b)}
+                    if run_witness(w)['violates']:
+                        return w
+    return None
